@@ -130,6 +130,15 @@ class Kernel:
                 self.bind(st[1], ("undef",), env)
                 return None
             v = self.expr(st[2], env)
+            init = st[2]
+            while is_node(init) and init[0] in ("cast", "paren"):
+                init = init[1]
+            pp = st[1]
+            while pp[0] == "ptype":
+                pp = pp[1]
+            if is_node(init) and init[0] == "un" and init[1] == "*" and pp[0] == "pident" and pp[3] and isinstance(v, tuple) and v[0] in ("root", "elem"):
+                # `let [mut] x = *ptr;` copies the value out of the cell: x is a value, not a place
+                v = ("copy", v)
             self.bind(st[1], v, env)
             # mutable integer locals become running counters when incremented in loops
             p = st[1]
@@ -261,6 +270,12 @@ class Kernel:
                 tgt = self.expr(e[2], env)
                 val = self.expr(e[3], env)
                 bop = op[:-1]
+                ln = path_of(e[2])
+                if ln and ln in env and ln in self.mut_locals and root_of(tgt) is None and not (isinstance(tgt, tuple) and tgt[0] == "counter"):
+                    # update of a plain local variable (running offset, accumulator): not an effect on any cell
+                    env[ln] = ("op", bop, tgt, val)
+                    self.emit(("local", ln), env[ln], kind="local")
+                    return ("unit",)
                 if isinstance(tgt, tuple) and tgt[0] == "counter":
                     # running counter update
                     self.emit(tgt, ("op", bop, tgt, val), kind="counter")
@@ -271,6 +286,11 @@ class Kernel:
         if t == "assign":
             tgt = self.expr(e[1], env)
             val = self.expr(e[2], env)
+            ln = path_of(e[1])
+            if ln and ln in env and ln in self.mut_locals and root_of(tgt) is None and not (isinstance(tgt, tuple) and tgt[0] == "counter"):
+                env[ln] = val
+                self.emit(("local", ln), val, kind="local")
+                return ("unit",)
             if isinstance(tgt, tuple) and tgt[0] == "counter":
                 self.emit(tgt, val, kind="counter")
                 return ("unit",)
